@@ -522,6 +522,22 @@ func TestC04Sentences(t *testing.T) {
 			r.Case("CLI:"+text, true, "through-cli")
 			r.Check(t, checkC04(cc), "c04", cc)
 		}
+		if coin(t, "very-long-line", 2) {
+			// a line longer than 64 KiB (a piece written on one line, or one long remark) between two short lines:
+			// no line-length limit is documented, the tree must hold every chord of all three lines
+			one := Render(items, canonStyle{})
+			var long string
+			if rapid.Bool().Draw(t, "long-line-is-comment") {
+				long = ";" + strings.Repeat(" lyrics, remarks and other things nobody parses", 1400+rapid.IntRange(0, 1400).Draw(t, "long-pad"))
+				r.Class("comment-line>64KiB", 1)
+			} else {
+				long = strings.Repeat(one, 66000/len(one)+1+rapid.IntRange(0, 40).Draw(t, "long-rep"))
+				r.Class("piece-on-one-line>64KiB", 1)
+			}
+			cc := C04Case{Text: one + "\n" + long + "\n" + one, CLI: true}
+			r.Case(fmt.Sprintf("CLI-long:%d:%s", len(long), one), true, "through-cli")
+			r.Check(t, checkC04(cc), "c04", cc)
+		}
 		// every proper prefix (cut at piece boundaries) and a few mutations
 		pieces := splitPieces(text)
 		if len(pieces) > 1 {
